@@ -839,13 +839,15 @@ class DataCount(Definition):
 class Custom(Definition):
     """Custom binary data."""
 
-    __slots__ = ("name", "data")
+    __slots__ = ("name", "data", "position")
 
     def _from_args(self, name, data):
         assert isinstance(name, str)
         assert isinstance(data, bytes)
         self.name = name
         self.data = data
+        # The id of the section which it follows in a binary, if known:
+        self.position = None
 
     def to_string(self):
         raise NotImplementedError("Cannot convert custom section to string.")
